@@ -189,7 +189,7 @@ def runTxn (ctx : Ctx) (tag : String) (n : Nat) (toks : List String) : List Stri
 def parseCsv (s : String) : List String := if s == "." then [] else s.splitOn ","
 
 /-! sender decision table:
-      c19o <tag> <txnCluster 0|1> <pipeline 0|1> <class none|redirect|crossslot|other> <send|recv> <once|always>
+      c19o <tag> <txnCluster 0|1> <pipeline 0|1> <class none|redirect|crossslot|other|closed> <send|recv> <once|always>
     class  = the error class the failing batch produces; `always` = every attempt of it fails (state of
              the cluster), `once` = only the first (injected fault);
     send   = the error is returned by sendFuncOnce (Exec / Dispatch): `sendFunc` decides;
@@ -207,6 +207,9 @@ def senderLine (tag txn pipe cls path pers : String) : String :=
     | .typology => "typology"
     | .brk => "break"
     | .other => "other"
+  if cls == "closed" then
+    s!"{tag} resends={ClusterSender.sendFuncClosed.1 - 1} final={showF ClusterSender.sendFuncClosed.2}"
+  else
   match e? with
   | none => s!"{tag} resends=0 final=eof"
   | some e =>
